@@ -66,6 +66,19 @@ static std::string scenario_iterations(int iters) {
     char b[40]; snprintf(b, sizeof b, "%016lx", (unsigned long)sc::fnv(key)); return b;
 }
 
+// ------------------------------------------------------------------------------------------------ (e) mesh output: the writer compacts the cells in a parallel loop before it prints them
+static std::string scenario_write(int ncells) {
+    std::vector<cell_ptr> L; local_mesh_refiner lmr(1e-3, 1e3, true);
+    for (int i = 0; i < ncells; i++) { cell_ptr c = sc::make_cell(sc::translated(sc::icosphere(1), 3.0 * i, 0.25 * i, 0), (unsigned)i, sc::make_cell_type(i % 2 ? 2 : 0, 3), true); c->set_local_id(i);
+        for (int k = 0; k <= i % 3; k++) for (const edge& e0 : c->get_edge_set()) { edge e = e0; bool can = false; try { can = lmr.can_be_merged(e, c); } catch (...) {} if (!can) continue; edge_set es = c->get_edge_set(); try { lmr.merge_edge(e, c, es); } catch (...) {} break; }   // free slots: the compaction has work to do
+        c->update_all_face_normals_and_areas(); c->area_ = c->compute_area(); c->volume_ = c->compute_volume(); L.push_back(c); }
+    std::string dir = sw::scratch_root() + "/c15w"; std::filesystem::create_directories(dir); std::string cp = dir + "/cells.vtk", fp = dir + "/faces.vtk", out;
+    try { mesh_writer::write(cp, fp, L); } catch (std::exception& e) { out = std::string("threw:") + e.what(); }
+    for (const std::string& path : {cp, fp}) { std::ifstream f(path); std::stringstream ss; ss << f.rdbuf(); char b[40]; snprintf(b, sizeof b, " %016lx", (unsigned long)sc::fnv(ss.str())); out += b; }
+    for (auto& c : L) { char b[60]; snprintf(b, sizeof b, " %016lx/%zu/%zu", (unsigned long)sc::fnv(sc::canon_cell(*c)), c->node_lst_.size(), c->face_lst_.size()); out += b; c->clear_data(); }
+    return out;
+}
+
 // ------------------------------------------------------------------------------------------------ (d) shared node: atomic force accumulation + locked coupling
 static std::string scenario_shared_node(int team) {
     static node shared(0., 0., 0., 0u); shared.force_.reset();
@@ -103,6 +116,8 @@ static void explore(Result& R) {
         subs.push_back({"peh n=" + std::to_string(n) + " failing=" + std::to_string(mask) + " T=" + std::to_string(T), T, 2, [n, mask] { return scenario_peh(n, mask); }, [n, mask](const std::string& o) { return judge_peh(o, n, mask); }, nullptr, ""}); } }
     // (d)
     for (int T = 2; T <= 3; T++) subs.push_back({"shared-node T=" + std::to_string(T), T, 2, [T] { return scenario_shared_node(T); }, nullptr, nullptr, "@serial"});
+    // (e)
+    for (int T : {2, 3}) subs.push_back({"mesh_writer::write, three cells with free slots, T=" + std::to_string(T), T, th ? 2 : 1, [] { return scenario_write(3); }, nullptr, nullptr, "@serial"});
     // (b)
     for (int nc : {3, 4}) for (int mask : {3, 5, 6, 7}) for (int T : {2, 3}) { if (!th && (nc == 4 || (T == 3 && mask != 7))) continue; subs.push_back({"divide cells=" + std::to_string(nc) + " ready=" + std::to_string(mask) + " T=" + std::to_string(T), T, th ? 3 : 2, [nc, mask] { return scenario_divide(nc, mask); }, nullptr, hash_list, "@serial"}); }
     // (a)
